@@ -1,5 +1,48 @@
-(* Pins: the statement of every C10 theorem, so that none can be weakened silently. *)
+(* Statement pins: each C10 theorem is re-checked against the statement recorded here, so a theorem
+   cannot be weakened in its own file without this file failing to compile. *)
 From BT Require Import Base.Util Base.LE Base.Float Model.RTree Model.BBIFile Model.BigWigWrite Model.BBIRead
   Proofs.RTreeAbs Proofs.RTreeCodec Spec.FormatEmit Spec.FormatWf Model.ReadBed_C10
   Proofs.C10Codec Proofs.C10Search Proofs.C10Sections Proofs.C10ChromTree Properties.C10.
 Local Open Scope N_scope.
+
+Check (C10_search_any_tree : forall big bs (st : store) h root ls q qs qe,
+  (forall o n, st_find o st = Some n -> read_node big bs o = Ok n) ->
+  st_leaves st h root = Some ls -> st_cov st h root ->
+  forall fuel, (st_size st h root < fuel)%nat ->
+    search_bytes fuel big bs root q qs qe
+    = Ok (map (fun i => (li_off i, li_size i)) (filter (fun i => overlaps q qs qe (li_span i)) ls))).
+Check (C10_search_any_tree_keyed : forall (K : Type) (get : K -> option (gnode K)) (off : K -> N) big bs,
+  (forall k g, get k = Some g -> read_node big bs (off k) = Ok (render off g)) ->
+  forall q qs qe h root ls, gleaves get h root = Some ls -> gcov get h root ->
+  forall fuel, (gsize get h root < fuel)%nat ->
+    search_bytes fuel big bs (off root) q qs qe = Ok (hits q qs qe ls)).
+Check (C10_endianness : forall big w x, x < 256 ^ N.of_nat w ->
+  dec big (enc big w x) = x /\ enc big w x = rev (enc (negb big) w x) /\ (forall bs, dec big bs = dec (negb big) (rev bs))).
+Check (C10_endianness_fields : forall big fs o w x rest, fld_at fs o = Some (w, x) -> x < 256 ^ N.of_nat w ->
+  dec big (firstn w (skipn o (enc_flds big fs ++ rest))) = x).
+Check (C10_sections : forall L ty c v0 rest chrom s e,
+  sec_ok ty ((c, v0) :: rest) = true ->
+  section_values (l_big L) (sec_payload L ty ((c, v0) :: rest)) chrom s e
+  = Ok (if c =? chrom then Some (clip_filter s e (map snd ((c, v0) :: rest))) else None)).
+Check (C10_sections_fixed_step : forall L step span vs rest cur i b,
+  Forall bits_ok vs -> nth_error (map v_bits vs) i = Some b ->
+  nth_error (parse_type3 (l_big L) step span cur (length vs) (flat_map (vitem_bytes L 3) vs ++ rest)) i
+  = Some {| v_start := cur + N.of_nat i * step; v_end := cur + N.of_nat i * step + span; v_bits := b |}).
+Check (C10_sections_var_step : forall L span vs rest, Forall bits_ok vs ->
+  parse_type2 (l_big L) span (length vs) (flat_map (vitem_bytes L 2) vs ++ rest)
+  = map (fun v => {| v_start := v_start v; v_end := v_start v + span; v_bits := v_bits v |}) vs).
+Check (C10_zoom_block : forall L recs chrom s e, Forall (fun z => zraw_ok z = true) recs ->
+  zoom_values (l_big L) (flat_map (zraw_bytes L) recs) chrom s e
+  = Ok (Some (map zrec_of (filter (fun z => (zr_chrom z =? chrom) && (s <=? zr_end z) && (zr_start z <=? e)) recs)))).
+Check (C10_bed_block : forall L c items, forallb (fun cb => fst cb =? c) items = true -> forallb bed_ok items = true ->
+  forall fuel more, (length items < fuel)%nat -> (length more < 12)%nat ->
+  bed_entries fuel (l_big L) c (flat_map (bed_bytes L) items ++ more) = Ok (map snd items)).
+Check (C10_chrom_tree : forall (K : Type) (get : K -> option (cgnode K)) (off : K -> N) big bs key,
+  (forall k g, get k = Some g -> has_at bs (off k) (cg_bytes off big key g) /\ cg_ok off key g) ->
+  forall h k l, cleaves get h k = Some l ->
+  forall fuel, (h <= fuel)%nat -> read_chrom_block fuel big bs key (off k) = Ok l).
+Check (C10_reads_emit : forall (cmp infl : list N -> list N) (L : layout) (X : content),
+  (forall b, infl (cmp b) = b) -> wf_b cmp L X = true ->
+  exists i, read_info (emit cmp L X) = Ok i /\
+    forall q, (match q with QValues _ _ _ => x_bigwig X = true | _ => True end) ->
+      read_answer infl (emit cmp L X) i q = spec_answer X q).
